@@ -18,7 +18,8 @@ HARNESS_BIN = 'c09'
 RUN_MODULE = 'Run.C14'
 THEOREMS = ['C14_requests_partition', 'C14_outcome_once', 'C14_writes_match_misses', 'C14_language_sums',
             'C14_compilations', 'C14_schedules_cover_interleavings', 'C14_every_request_is_a_program',
-            'C14_hit_did_not_compile', 'C14_panic_is_an_error_outcome', 'C14_zero_midflight_refuted']
+            'C14_hit_did_not_compile', 'C14_panic_is_an_error_outcome', 'C14_not_cacheable_compile_is_executed_only',
+            'C14_dist_client_error_is_an_error_outcome', 'C14_zero_midflight_refuted']
 ASSUMPTIONS = [
     'each critical section on the statistics mutex is atomic (tokio::sync::Mutex); the laws are claimed at quiescent '
     'points (no request in flight), zeroing included only there: C14_zero_midflight_refuted shows that is inherent',
@@ -77,7 +78,7 @@ def ledger_one(cls, res, ccr, d, where):
         vs.append('%s: compile_requests moved by %d for one request' % (where, d['cr']))
     if any(d[k] < 0 for k in KEYS):
         vs.append('%s: a counter went down' % where)
-    if cls != b'compile':
+    if cls not in c09.EXEC:
         want = 'un' if tag == b'unsupported' else None
         if d['ex'] != 0:
             vs.append('%s: a request handed back to the client was counted as executed' % where)
@@ -114,13 +115,29 @@ def monitor(case, out):
     vs = []
     if not isinstance(out, list) or len(out) != len(steps) or (out and out[0] == b'harness_error'):
         return ['malformed implementation output: %r' % (out[:2] if isinstance(out, list) else out)]
+    if isinstance(out, list) and len(out) == 1 and out[0] == [b'case_hung']:
+        return ['the history never finished: a request of it was never answered (a thread of the server is stuck)']
+    if isinstance(out, list) and len(out) == 1 and out[0] == [b'not_run_after_hangs']:
+        return []
+    if isinstance(out, list) and len(out) == 2 and out[0] == b'unparsable':
+        if out[1].startswith(b'(harness_died'):
+            return []          # a later case of a shard whose process died: the culprit is reported, not these
+        return ['the process serving this history died instead of answering: %s' % out[1][:200].decode('utf-8', 'replace')]
     zero = dict((k, 0) for k in KEYS)
     prev = dict(zero)
     dirty = False       # the statistics were zeroed while a request was in flight: no law is claimed until the next zeroing
     for i, (st, ob) in enumerate(zip(steps, out)):
         kind = st[0]
+        if ob[0] == b'aborted':
+            break
         if ob[0] != kind:
             vs.append('step %d: malformed observation' % i)
+            break
+        if ob[-1] == [b'stats_hung']:
+            vs.append('step %d: the server no longer answers a statistics request (hung)' % i)
+            break
+        if kind in (b'req', b'midzero') and ob[1][0][0] == b'hung':
+            vs.append('step %d: the request was never answered (hung connection): it stays counted without an outcome' % i)
             break
         where = 'step %d (%s)' % (i, kind.decode())
         if kind in (b'disk', b'heal'):
@@ -136,10 +153,10 @@ def monitor(case, out):
                 vs.append('%s: increments made before the ZeroStats survived it' % where)
             dirty = True
             continue
-        if dirty and kind not in (b'zero', b'restart', b'restart_broken'):
+        if dirty and kind not in (b'zero', b'restart', b'restart_broken', b'restart_distfail'):
             continue
         vs += law_violations(t, where)
-        if kind in (b'zero', b'restart', b'restart_broken'):
+        if kind in (b'zero', b'restart', b'restart_broken', b'restart_distfail'):
             if any(t[k] != 0 for k in KEYS):
                 vs.append('%s: statistics not zero' % where)
             prev = dict(zero)
@@ -153,14 +170,14 @@ def monitor(case, out):
             results, ccs = ob[1], ob[3]
             if d['cr'] != len(rs):
                 vs.append('%s: %d requests, compile_requests moved by %d' % (where, len(rs), d['cr']))
-            nexec = sum(1 for r in rs if r[2] == b'compile')
+            nexec = sum(1 for r in rs if r[2] in c09.EXEC)
             if d['ex'] != nexec:
                 vs.append('%s: %d executed requests, requests_executed moved by %d' % (where, nexec, d['ex']))
             hits = sum(1 for r, res in zip(rs, results)
-                       if r[2] == b'compile' and res[0][0] == b'finished' and res[0][1] == 0 and ccs[r[1]] == 0)
+                       if r[2] in c09.EXEC and res[0][0] == b'finished' and res[0][1] == 0 and ccs[r[1]] == 0)
             if d['H'] != hits:
                 vs.append('%s: %d requests were served without running the compiler, cache_hits moved by %d' % (where, hits, d['H']))
-            ran = sum(ccs[r[1]] for r in rs if r[2] == b'compile')
+            ran = sum(ccs[r[1]] for r in rs if r[2] in c09.EXEC)
             if d['co'] + d['cf'] > ran or d['M'] > ran:
                 vs.append('%s: counters claim more compiler runs than happened' % where)
         prev = dict((k, t[k]) for k in KEYS)
@@ -207,6 +224,7 @@ def legs(tier):
         return (c09.gen_table('quick', force_level='single')
                 + c09.gen_histories(rng, 3500, 16, par_weight=5, zero_weight=3) + c09.gen_midzero(rng, 400))
     return [Leg('reqsm', gen, monitor=monitor, nontrivial=nontrivial, shrink=c09.shrink, neighbours=c09.neighbours,
+                compare=c09.compare,
                 stats=stats,
                 rule='PRNG histories over 4 translation units: requests of all six classes (executed, unsupported '
                      'compiler, vanished compiler, not a compilation, two kinds of not cacheable) x cache control x '
